@@ -109,7 +109,7 @@ func cuScenarios() []cuScenario {
 			synctest.Wait()
 			return invokeWith(ep, cc, bg, bv([]byte("q")), nil, nil)
 		}},
-		{"failed-open-eof", "(CU_early REof)", "client-end-eof-nil", func(t *testing.T, ep *Endpoint, cc *goat.ClientConn) error {
+		{"failed-open-eof", "(CU_early REof)", "" /* regression of fix 9827a73 */, func(t *testing.T, ep *Endpoint, cc *goat.ClientConn) error {
 			ep.FailRead(io.EOF) // the peer closed the connection
 			synctest.Wait()
 			return invokeWith(ep, cc, bg, bv([]byte("q")), nil, nil)
@@ -118,7 +118,7 @@ func cuScenarios() []cuScenario {
 			ep.FailWrites(errInjected)
 			return invokeWith(ep, cc, bg, bv([]byte("q")), nil, nil)
 		}},
-		{"write-failure-eof", "(CU_early REof)", "client-end-eof-nil", func(t *testing.T, ep *Endpoint, cc *goat.ClientConn) error {
+		{"write-failure-eof", "(CU_early REof)", "" /* regression of fix 9827a73 */, func(t *testing.T, ep *Endpoint, cc *goat.ClientConn) error {
 			ep.FailWrites(io.EOF)
 			return invokeWith(ep, cc, bg, bv([]byte("q")), nil, nil)
 		}},
